@@ -7,14 +7,15 @@
   as closures `(pc, scope index)` that are looked up through the lexical `outerindex` chain.
 
   Fragment (`Q`): `.`  constants  `a | b`  `a , b`  `.[]`  `.name`  `empty`  `[q]`  `error`  `try b`
-  `try b catch h`  `if c then a else b end` (so also `elif`, `and`, `or`)  `l // r`  and, over a program `def f₀(g): …; def f₁(g): …; main` of one-filter-parameter
+  `try b catch h`  `if c then a else b end` (so also `elif`, `and`, `or`)  `l // r`  `$x`
+  `src as $x | body` (variables local to a scope)  and, over a program `def f₀(g): …; def f₁(g): …; main` of one-filter-parameter
   functions: the parameter `g` and calls `fᵢ(a)` (any recursion).
 
     * `eval`     — fuel-indexed reference semantics (what Spec.eval says on this fragment; running
                    out of fuel is the absorbing outcome `diverge`)
     * `compile`  — emits, instruction for instruction, what compiler.go emits for these forms with
                    every optimisation switched off (compileQuery / compileComma / compileArray /
-                   compileTry / compileIf / compileAlt / compileFuncDef / compileFunc /
+                   compileTry / compileIf / compileAlt / compileBind / compileFuncDef / compileFunc /
                    compileCallInternal); `compileProg` lays out the
                    whole program as `Compile` does.  Registers `[scope id, i]` are named by the pc
                    of the scope's `opscope` and the pc offset of the allocating instruction; the
@@ -70,6 +71,10 @@ inductive Q where
   | ite (c a b : Q)
   /-- `l // r` -/
   | alt (l r : Q)
+  /-- `$x` -/
+  | var (x : Nat)
+  /-- `src as $x | body` -/
+  | bind (x : Nat) (src body : Q)
   deriving Inhabited
 
 inductive Err where
@@ -81,6 +86,8 @@ inductive Err where
   | user (v : V)
   /-- `.name` on a value `funcIndex2` rejects -/
   | idx (v k : V)
+  /-- use of an unbound variable (a compile error in jq; reference semantics only) -/
+  | noVar (x : Nat)
 
 /-- what `catch` receives: the error value of `error`, the message text otherwise
     (`opforktrybegin`: `ValueError` → `e.Value()`, else `err.Error()`) -/
@@ -89,6 +96,7 @@ def Err.toV [IterMsg] : Err → V
   | .noParam => .null
   | .user v => v
   | .idx v k => IterMsg.indexMsg v k
+  | .noVar _ => .null
 
 /-- `v == nil || v == false` (`opjumpifnot`) -/
 def falsy : V → Bool
@@ -128,9 +136,26 @@ inductive Clo where
   | mk (h : Option Name) (q : Q) (env : Clo)
   deriving Inhabited
 
-/-- fuel decreases at every constructor; `g` = the function whose body (or whose argument
-    expression) is being evaluated (`none`: the main query), `ρ` = what its parameter is bound to -/
-def eval [IterMsg] (defs : Name → Q) : Nat → Option Name → Clo → Q → V → Res
+def lookup {α : Type} (x : Nat) : List (Nat × α) → Option α
+  | [] => none
+  | (y, a) :: rest => if y = x then some a else lookup x rest
+
+/-- the static context of a query: the function whose body (or whose argument expression) it
+    belongs to (`none`: the main query) and, for the compiler, the variables in scope with the
+    register (of the current scope) each lives in -/
+structure Ctx where
+  fn : Option Name
+  vars : List (Nat × Nat)
+
+/-- the environment of the reference semantics: what the parameter of the enclosing function is
+    bound to, and the values of the variables in scope -/
+structure Env where
+  clo : Clo
+  vars : List (Nat × V)
+
+/-- fuel decreases at every constructor.  Variables are local to a scope: a function body or an
+    argument expression starts without variables (`Q.Closed` rules out references across). -/
+def eval [IterMsg] (defs : Name → Q) : Nat → Ctx → Env → Q → V → Res
   | 0, _, _, _, _ => ⟨[], .diverge⟩
   | _+1, _, _, .id, v => ⟨[v], .done⟩
   | _+1, _, _, .const c, _ => ⟨[c], .done⟩
@@ -153,10 +178,10 @@ def eval [IterMsg] (defs : Name → Q) : Nat → Option Name → Clo → Q → V
     | ⟨o, .done⟩ => ⟨[.arr o], .done⟩
     | ⟨_, st⟩ => ⟨[], st⟩
   | n+1, _, ρ, .param, v =>
-    match ρ with
-    | .mk h q ρ' => eval defs n h ρ' q v
+    match ρ.clo with
+    | .mk h q ρ' => eval defs n ⟨h, []⟩ ⟨ρ', []⟩ q v
     | .none => ⟨[], .err .noParam⟩
-  | n+1, g, ρ, .call1 f a, v => eval defs n (some f) (.mk g a ρ) (defs f) v
+  | n+1, g, ρ, .call1 f a, v => eval defs n ⟨some f, []⟩ ⟨.mk g.fn a ρ.clo, []⟩ (defs f) v
   | _+1, _, _, .error, v => ⟨[], .err (.user v)⟩
   | n+1, g, ρ, .try_ b, v =>
     -- a catchable error of the body ends the stream silently
@@ -186,6 +211,16 @@ def eval [IterMsg] (defs : Name → Q) : Nat → Option Name → Clo → Q → V
     | .diverge => ⟨[], .diverge⟩
     | .done => if truthy.isEmpty then eval defs n g ρ r v else ⟨truthy, .done⟩
     | .err e => ⟨truthy, .err e⟩
+  | _+1, _, ρ, .var x, _ =>
+    match lookup x ρ.vars with
+    | some w => ⟨[w], .done⟩
+    | none => ⟨[], .err (.noVar x)⟩
+  | n+1, g, ρ, .bind x s b, v =>
+    -- for each output of the source, the body on the ORIGINAL input with `$x` bound to it
+    let rs := eval defs n g ρ s v
+    match rs.stop with
+    | .diverge => ⟨[], .diverge⟩
+    | _ => Res.bindL (fun w => eval defs n g ⟨ρ.clo, (x, w) :: ρ.vars⟩ b v) rs.outs rs.stop
 
 /-! ## bytecode (code.go) -/
 
@@ -207,13 +242,15 @@ abbrev Code := List Instr
 /-! ## compiler (compiler.go, optimisations off) -/
 
 /-- the scope id of a function (the pc of its `opscope`); the main query's scope is at pc 0 -/
-def scopeOf (entry : Name → Nat) : Option Name → Nat
+def scopeOfFn (entry : Name → Nat) : Option Name → Nat
   | none => 0
   | some f => entry f
 
+def scopeOf (entry : Name → Nat) (g : Ctx) : Nat := scopeOfFn entry g.fn
+
 /-- `e` = pc of the `opscope` of the enclosing scope (its id); `p` = pc of the first emitted
     instruction; `g` = the enclosing named function (whose parameter `param` refers to) -/
-def compile (entry : Name → Nat) (g : Option Name) (e p : Nat) : Q → List Instr
+def compile (entry : Name → Nat) (g : Ctx) (e p : Nat) : Q → List Instr
   | .id => []
   | .const c => [.const c]
   | .pipe a b => let ca := compile entry g e p a; ca ++ compile entry g e (p + ca.length) b
@@ -236,7 +273,7 @@ def compile (entry : Name → Nat) (g : Option Name) (e p : Nat) : Q → List In
   | .call1 f a =>
     -- compileCallInternal: store v; (compileFuncDef of the argument:) jump L; scope; a; ret;
     -- L: pushpc; load v; call f
-    let ca := compile entry g (p+2) (p+3) a
+    let ca := compile entry ⟨g.fn, []⟩ (p+2) (p+3) a
     [.store e (p - e), .jump (p + 4 + ca.length), .scope (p+2) (ca.length + 1) 0] ++ ca ++
       [.ret, .pushpc (p+2), .load e (p - e), .call (entry f)]
   | .error => [.callerror]
@@ -266,6 +303,14 @@ def compile (entry : Name → Nat) (g : Option Name) (e p : Nat) : Q → List In
     [.push (.bool false), .store e (p - e), .fork (a + 7)] ++ cl ++
       [.dup, .jumpifnot (a + 5), .push (.bool true), .store e (p - e), .jump (a + 11 + cr.length),
        .pop, .backtrack, .load e (p - e), .jumpifnot (a + 11), .backtrack, .pop] ++ cr
+  | .var x =>
+    -- compileFunc, `$` variable: pop; load [scope, i]
+    [.pop, .load e ((lookup x g.vars).getD 0)]
+  | .bind x s b =>
+    -- compileBind with a variable pattern: dup; expbegin; src; store x; expend; body
+    let cs := compile entry g e (p+2) s
+    let px := p + 2 + cs.length
+    [.dup, .expbegin] ++ cs ++ [.store e (px - e), .expend] ++ compile entry ⟨g.fn, (x, px - e) :: g.vars⟩ e (px + 2) b
 
 /-- length of the code of a query (independent of where it is placed) -/
 def Q.size : Q → Nat
@@ -284,6 +329,8 @@ def Q.size : Q → Nat
   | .index _ => 1
   | .ite c a b => c.size + a.size + b.size + 5
   | .alt l r => l.size + r.size + 14
+  | .var _ => 2
+  | .bind _ s b => s.size + b.size + 4
 
 /-- a program: `def f₀(g): defs[0]; def f₁(g): defs[1]; …; main` -/
 structure Prog where
@@ -292,17 +339,21 @@ structure Prog where
 
 def Prog.defsFn (p : Prog) : Name → Q := fun f => p.defs.getD f .empty
 
-/-- every called function is one of the `nf` defined ones (else: a compile error in jq) -/
-def Q.Closed (nf : Nat) : Q → Prop
-  | .pipe a b => a.Closed nf ∧ b.Closed nf
-  | .comma a b => a.Closed nf ∧ b.Closed nf
-  | .arr q => q.Closed nf
-  | .call1 f a => f < nf ∧ a.Closed nf
-  | .try_ b => b.Closed nf
-  | .tryCatch b h => b.Closed nf ∧ h.Closed nf
-  | .ite c a b => c.Closed nf ∧ a.Closed nf ∧ b.Closed nf
-  | .alt l r => l.Closed nf ∧ r.Closed nf
-  | _ => True
+/-- well-scoped: every called function is one of the `nf` defined ones, every variable used is
+    in scope (`vs`), and argument expressions do not use variables of the calling scope (a
+    restriction of this fragment; function bodies cannot anyway) -/
+def Q.Closed (nf : Nat) : List Nat → Q → Prop
+  | vs, .pipe a b => a.Closed nf vs ∧ b.Closed nf vs
+  | vs, .comma a b => a.Closed nf vs ∧ b.Closed nf vs
+  | vs, .arr q => q.Closed nf vs
+  | _, .call1 f a => f < nf ∧ a.Closed nf []
+  | vs, .try_ b => b.Closed nf vs
+  | vs, .tryCatch b h => b.Closed nf vs ∧ h.Closed nf vs
+  | vs, .ite c a b => c.Closed nf vs ∧ a.Closed nf vs ∧ b.Closed nf vs
+  | vs, .alt l r => l.Closed nf vs ∧ r.Closed nf vs
+  | vs, .var x => x ∈ vs
+  | vs, .bind x s b => s.Closed nf vs ∧ b.Closed nf (x :: vs)
+  | _, _ => True
 
 /-- the query uses the parameter of the enclosing function -/
 def Q.HasParam : Q → Prop
@@ -315,13 +366,14 @@ def Q.HasParam : Q → Prop
   | .tryCatch b h => b.HasParam ∨ h.HasParam
   | .ite c a b => c.HasParam ∨ a.HasParam ∨ b.HasParam
   | .alt l r => l.HasParam ∨ r.HasParam
+  | .bind _ s b => s.HasParam ∨ b.HasParam
   | _ => False
 
 /-- well-scoped programs (what the jq compiler accepts): calls go to defined functions and the
     main query does not use a parameter -/
 structure Prog.WF (p : Prog) : Prop where
-  defs_closed : ∀ q ∈ p.defs, q.Closed p.defs.length
-  main_closed : p.main.Closed p.defs.length
+  defs_closed : ∀ q ∈ p.defs, q.Closed p.defs.length []
+  main_closed : p.main.Closed p.defs.length []
   main_noparam : ¬ p.main.HasParam
 
 /-- code of one definition (compileFuncDef with one filter argument), placed at `start`:
@@ -329,7 +381,7 @@ structure Prog.WF (p : Prog) : Prop where
 def compileFunc (entry : Name → Nat) (f : Name) (body : Q) (start : Nat) : List Instr :=
   [.jump (start + body.size + 6), .scope (start+1) (body.size + 4) 1,
    .store (start+1) 0, .store (start+1) 1, .load (start+1) 0] ++
-    compile entry (some f) (start+1) (start+5) body ++ [.ret]
+    compile entry ⟨some f, []⟩ (start+1) (start+5) body ++ [.ret]
 
 def funcsLen (qs : List Q) : Nat := (qs.map fun q => q.size + 6).sum
 
@@ -344,7 +396,7 @@ def compileFuncs (entry : Name → Nat) : Name → Nat → List Q → List Instr
 def compileProg (p : Prog) : Code :=
   let pmain := 1 + funcsLen p.defs
   [.scope 0 (pmain + p.main.size) 0] ++ compileFuncs (entryOf p.defs) 0 1 p.defs ++
-    compile (entryOf p.defs) none 0 pmain p.main ++ [.ret]
+    compile (entryOf p.defs) ⟨none, []⟩ 0 pmain p.main ++ [.ret]
 
 /-! ## the VM (execute.go) -/
 
